@@ -41,6 +41,11 @@ type Settings struct {
 	// the frame this Settings was decoded from. It lets the receiver apply the
 	// window delta to open streams only when the value actually changed.
 	hasWindowSize bool
+	// present has bit id set for every parameter id that was in the frame this
+	// Settings was decoded from. A SETTINGS frame changes the parameters it
+	// carries and no others (RFC 7540 6.5.3), so the receiver has to tell a
+	// parameter that was sent from one that merely has its default here.
+	present uint8
 }
 
 func (st *Settings) Type() FrameType {
@@ -59,6 +64,7 @@ func (st *Settings) Reset() {
 	st.rawSettings = st.rawSettings[:0]
 	st.ack = false
 	st.hasWindowSize = false
+	st.present = 0
 }
 
 // CopyTo copies st fields to st2.
@@ -72,6 +78,41 @@ func (st *Settings) CopyTo(st2 *Settings) {
 	st2.frameSize = st.frameSize
 	st2.headerSize = st.headerSize
 	st2.hasWindowSize = st.hasWindowSize
+	st2.present = st.present
+}
+
+// applyTo changes in dst the parameters that were present in the frame st was
+// decoded from. Every other parameter keeps the value the peer gave it
+// earlier, or its initial value.
+func (st *Settings) applyTo(dst *Settings) {
+	if st.has(HeaderTableSize) {
+		dst.tableSize = st.tableSize
+	}
+
+	if st.has(EnablePush) {
+		dst.enablePush = st.enablePush
+	}
+
+	if st.has(MaxConcurrentStreams) {
+		dst.maxStreams = st.maxStreams
+	}
+
+	if st.has(MaxWindowSize) {
+		dst.windowSize = st.windowSize
+	}
+
+	if st.has(MaxFrameSize) {
+		dst.frameSize = st.frameSize
+	}
+
+	if st.has(MaxHeaderListSize) {
+		dst.headerSize = st.headerSize
+	}
+}
+
+// has reports whether parameter id was in the frame st was decoded from.
+func (st *Settings) has(id uint16) bool {
+	return st.present&(1<<id) != 0
 }
 
 // SetHeaderTableSize sets the maximum size of the header
@@ -204,6 +245,11 @@ func (st *Settings) Read(d []byte) error {
 			st.frameSize = value
 		case MaxHeaderListSize:
 			st.headerSize = value
+		}
+
+		// Unknown parameters are ignored (RFC 7540 6.5.2).
+		if key >= HeaderTableSize && key <= MaxHeaderListSize {
+			st.present |= 1 << key
 		}
 
 		last = i
